@@ -3,6 +3,6 @@ CONSTANTS
     Paths <- PathsDef
     Contents <- ContentsTr
     Size <- SizeTr
-    Routes = {"object", "index"}
+    Routes = {"object", "index", "lazy"}
     Spellings = {"plain", "slash", "rel"}
 INVARIANT Judge
